@@ -92,6 +92,7 @@ class Gen12(gen_c10.Gen):
         fn = self.fresh("ex")
         self.emit(0, f"def {fn}(a, b: {self.union_annot()}, *rest, **kw):")
         exprs = [
+            "'\u00e4\u00f6\u00fc\u00e4\u00f6\u00fc\u00e4\u00f6\u00fc\u00e4\u00f6\u00fc' + undefined_uu", "('\u65e5\u672c\u8a9e' * 3, a.nope_\u00e9)", "'\U0001f600\U0001f600\U0001f600' % (a, b)",
             "[x for x in b]", "{x: y for x, y in a}", "{x for x in rest if x}", "(x async for x in a)" if False else "(x for x in kw.values())",
             "lambda x, *y, z=1, **w: (x, y, z, w)", "(lambda: undefined_zz)()", "[*a, *b]", "{**kw, 'k': 1}", "(*rest, 1)", "print(*a, **b)",
             "f'{a!r:>{b}} {b=}'", "f'{a:{b}.{a}}'", "f'{undefined_yy}'", "(y := a) + y", "[z := 1, z ** 2]", "a if b else rest",
